@@ -261,6 +261,43 @@ func (w *Workspace) UpdateFile(path, content string) {
 	if !sameStringSlice(oldIncludes, fileIndex.Includes) {
 		w.refreshIncludeTreeLocked()
 	}
+	w.rebuildFileOrderLocked()
+}
+
+// rebuildFileOrderLocked lists the included files the way a fresh load does: depth first, in
+// the order of the include directives, each file once. The order decides which file wins when
+// two of them define the same thing, so it must not depend on the history of updates.
+func (w *Workspace) rebuildFileOrderLocked() {
+	if w.resolved == nil {
+		return
+	}
+	order := make([]string, 0, len(w.resolved.Files))
+	seen := map[string]bool{w.rootJournalPath: true}
+	var visit func(path string, journal *ast.Journal)
+	visit = func(path string, journal *ast.Journal) {
+		if journal == nil {
+			return
+		}
+		for _, inc := range resolveIncludePathsOrdered(path, journal.Includes) {
+			sub, ok := w.resolved.Files[inc]
+			if !ok || seen[inc] {
+				continue
+			}
+			seen[inc] = true
+			order = append(order, inc)
+			visit(inc, sub)
+		}
+	}
+	visit(w.rootJournalPath, w.resolved.Primary)
+
+	var rest []string
+	for path := range w.resolved.Files {
+		if !seen[path] {
+			rest = append(rest, path)
+		}
+	}
+	sort.Strings(rest)
+	w.resolved.FileOrder = append(order, rest...)
 }
 
 func (w *Workspace) buildIndexFromResolvedLocked() {
